@@ -235,9 +235,39 @@ def run_one(seed, tape, opts):
             pending_ops.append(("stranger_dial:" + kind, go))
     done_ops = set()
 
+    # the application may give up: connect()'s Deferred is cancelled while
+    # the race is still open (a fifth of the runs, either party)
+    cancel_who = tape.pick((None, None, None, None, S, R), "cancel_who")
+    cancelled = []
+
+    batch = [0]
+
+    def do_cancel():
+        cancelled.append(cancel_who.name)
+        sim.ev("app_cancels_connect", cancel_who.name)
+        sim.note("probe.connect_cancelled_by_application")
+        # the cancel comes from inside some other socket's callback: sockets
+        # that were readable in the same reactor iteration are still read
+        # once after loseConnection() (stopReading only affects later polls)
+        batch[0] = tape.choose(4, "batch")
+        if batch[0]:
+            net.read_after_lose = True
+        cancel_who.connect_d.cancel()
+
+    def end_of_batch():
+        if batch[0] > 0:
+            batch[0] -= 1
+            if batch[0] == 0:
+                net.read_after_lose = False
+
     def app_events():
-        return [(lab, (lambda lab=lab, fn=fn: (done_ops.add(lab), fn())))
-                for lab, fn in pending_ops if lab not in done_ops][:3]
+        evs = [(lab, (lambda lab=lab, fn=fn: (done_ops.add(lab), fn())))
+               for lab, fn in pending_ops if lab not in done_ops][:3]
+        if cancel_who is not None and not cancelled and \
+                cancel_who.connect_d is not None and \
+                cancel_who.result is None:
+            evs.append(("cancel:" + cancel_who.name, do_cancel))
+        return evs
     # keep labels unique
     pending_ops = [("%s#%d" % (lab, i), fn)
                    for i, (lab, fn) in enumerate(pending_ops)]
@@ -305,6 +335,7 @@ def run_one(seed, tape, opts):
 
     def oracle():
         unstall_due()
+        end_of_batch()
         if viol:
             return
         for p in (S, R):
@@ -395,6 +426,13 @@ def run_one(seed, tape, opts):
             V("C07.receiver_without_go", "the Receiver uses only a connection "
               "on which the correct sender handshake followed by 'go' arrived",
               "received %r" % bytes(er.rx_log[:120]))
+    if not viol and rw is not None and sw is None and S.result is not None:
+        V("C07.receiver_ok_sender_failed", "the Sender confirms exactly one "
+          "connection, so both connect() results are the two ends of one "
+          "link", "receiver's connect() returned a connection (so 'go' "
+          "arrived on it) although the sender's connect() failed with %s%s" %
+          (_res(S), " after the application cancelled it"
+           if "S" in cancelled else ""))
     if not viol and sw is not None and rw is not None:
         same = es.link is er.link
         if not same and via_relay:
@@ -432,6 +470,13 @@ def run_one(seed, tape, opts):
         sim.run(6000, max_time=75)
         oracle()
         for p, win in ((S, es), (R, er)):
+            if p.name in cancelled:
+                # what is left behind after the application cancelled
+                # connect() is outside the statement (counted, not gated)
+                if any(getattr(lp.factory, "owner", None) is p.t
+                       for lp in net.listeners.values()):
+                    sim.note("probe.listener_left_after_application_cancel")
+                continue
             # the selected connection itself stays usable: nothing but the
             # application (or the network) may close it
             if win is not None and win.transport.disconnecting:
@@ -463,7 +508,7 @@ def run_one(seed, tape, opts):
     if not viol and viable and not any(not l.up and l.ends[0].made
                                        for l in net.links) \
             and not sim.notes.get("advance_with_io_pending") and \
-            not late_key:
+            not late_key and not cancelled:
         if sw is None or rw is None:
             V("C07.no_winner_when_possible", "among the contending "
               "connections the Sender confirms exactly one",
